@@ -5,7 +5,7 @@ C03 — fresh names: every AEAD encryption gets a nonce that no ciphertext store
 carries, and every record's payload is encrypted under a material generated during that call.
 -/
 set_option linter.unusedVariables false
-namespace AsherahVerif.Env
+namespace AsherahVerif.Env.Res
 
 def ctNonce : Ct → Option Nat
   | .enc _ n _ => some n
@@ -418,4 +418,4 @@ theorem encryptPayload_datakey (m0 : Nat) (x : Ctx) (p : Nat) (b : Bool) :
   rintro w ⟨⟨n, hn⟩, h2, h3⟩
   exact ⟨m, n, hn, h2, h3⟩
 
-end AsherahVerif.Env
+end AsherahVerif.Env.Res
